@@ -15,15 +15,20 @@ LIBFLAGS_asan  := -O1 $(COMMON) $(SAN) $(COV) -DNDEBUG
 LIBFLAGS_dbg   := -O1 $(COMMON) $(SAN) $(COV) -DDRACO_DEBUG -UNDEBUG
 LIBFLAGS_plain := -O2 $(COMMON) $(COV) -DNDEBUG
 LIBFLAGS_tsi   := -O1 $(COMMON) -fsanitize=thread -DNDEBUG
+# Reach measurement only: unoptimised, so that every rejecting branch keeps its
+# own basic block (at -O1 all "return false" of a function share one block).
+LIBFLAGS_reach := -O0 $(COMMON) $(COV) -DNDEBUG
 
 SIMFLAGS_asan  := -O1 $(COMMON) $(SAN) -DNDEBUG
 SIMFLAGS_dbg   := -O1 $(COMMON) $(SAN) -DDRACO_DEBUG -UNDEBUG
 SIMFLAGS_plain := -O2 $(COMMON) -DNDEBUG
 SIMFLAGS_tsi   := -O1 $(COMMON) -DNDEBUG -DSIM_TSI
+SIMFLAGS_reach := -O1 $(COMMON) -DNDEBUG
 
 LINK_asan  := $(SAN)
 LINK_dbg   := $(SAN)
 LINK_plain :=
+LINK_reach :=
 LINK_tsi   := -Wl,--wrap=__cxa_guard_acquire -Wl,--wrap=__cxa_guard_release \
               -Wl,--wrap=__cxa_guard_abort -Wl,--wrap=memcpy -Wl,--wrap=memmove \
               -Wl,--wrap=memset -Wl,--wrap=pthread_mutex_lock \
